@@ -49,3 +49,66 @@ impl<'a> Ringbuffer<'a> {
         }
     }
 }
+
+/// Bounded proofs for the `delay` kernel (run by /verif with `cargo kani`; compiled only under `cfg(kani)`).
+#[cfg(kani)]
+mod verification {
+    use super::*;
+
+    const MAX_LEN: usize = 4;
+    const STEPS: usize = 6;
+
+    /// For every ring length 1..=4, every initial content / cursor pair the VM can leave behind (cursors are
+    /// arbitrary u64: `process` reduces them modulo the length), every input word and every time word
+    /// (any f64 bit pattern, incl. NaN, infinities, negative and huge values) over 6 consecutive calls:
+    ///  * no access outside the `2 + len` words of the cell (Kani checks the unchecked accesses),
+    ///  * the cursors written back are inside the ring,
+    ///  * a call whose delay d = floor(clamp(t, 0, len-1)) is at least 1 returns the input of d calls earlier
+    ///    (when that call is inside the window).
+    #[kani::proof]
+    #[kani::unwind(8)]
+    fn delay_returns_the_input_of_d_samples_earlier() {
+        let mut cell: [u64; 2 + MAX_LEN] = kani::any();
+        let len: u64 = kani::any();
+        kani::assume(len >= 1 && len <= MAX_LEN as u64);
+        let mut inputs = [0u64; STEPS];
+        for i in 0..STEPS {
+            let x: u64 = kani::any();
+            let t: u64 = kani::any();
+            inputs[i] = x;
+            let out = {
+                let mut rb = Ringbuffer::new(cell.as_mut_ptr(), len);
+                rb.process(x, t)
+            };
+            assert!(cell[0] < len && cell[1] < len);
+            let tf = f64::from_bits(t);
+            // reference: floor of the time clamped to [0, len-1]; NaN delays by 0
+            let d = if tf >= (len - 1) as f64 {
+                len - 1
+            } else if tf >= 1.0 {
+                tf as u64
+            } else {
+                0
+            };
+            if d >= 1 && (d as usize) <= i {
+                assert!(out == inputs[i - d as usize]);
+            }
+            // reachability witnesses (vacuity guard): the claim is exercised late in the window, with a ring that is
+            // not a power of two and with the longest delay
+            kani::cover!(i == STEPS - 1 && len == 3 && d == 2);
+            kani::cover!(i == STEPS - 1 && d == len - 1 && len == MAX_LEN as u64);
+        }
+    }
+
+    #[kani::proof]
+    fn empty_ring_is_inert() {
+        let mut cell: [u64; 2] = kani::any();
+        let before = cell;
+        let out = {
+            let mut rb = Ringbuffer::new(cell.as_mut_ptr(), 0);
+            rb.process(kani::any(), kani::any())
+        };
+        assert!(out == 0);
+        assert!(cell == before);
+    }
+}
